@@ -382,6 +382,32 @@ func HarnessC12ReadOnly() {
 	verifReach("end")
 }
 
+// HarnessC12Degenerate: the degenerate schemas of C06 (invalid regular expressions in pattern and
+// patternProperties, empty lists, unknown types and formats ...) and every instance kind, frozen.
+func HarnessC12Degenerate() {
+	s := genDegenerateSchema()
+	if verifBool() { // an invalid expression next to a valid one, below additionalProperties:false, and one level down
+		inner := spec.Schema{}
+		inner.PatternProperties = map[string]spec.Schema{"^a(?=b)": {}, "^a": schemaOfType("number")}
+		s.PatternProperties = map[string]spec.Schema{"(": {}, "^a": {}}
+		s.Properties = map[string]spec.Schema{"nested": inner}
+		s.AdditionalProperties = &spec.SchemaOrBool{Allows: false}
+	}
+	var d interface{}
+	if verifBool() {
+		d = genAnyInstance()
+	} else {
+		d = map[string]interface{}{"a": 1.0, "zz": 1.0, "nested": map[string]interface{}{"ab": 1.0}}
+	}
+	reg := &verifRegistry{}
+	verifFreeze(d, "instance")
+	verifFreeze(&s, "schema")
+	_ = AgainstSchema(&s, d, reg)
+	_ = NewSchemaValidator(&s, nil, "", reg).Validate(d)
+	verifUnfreeze()
+	verifReach("end")
+}
+
 // HarnessC12Arrays: arrays of up to 4 elements (strings in every relative order, numbers, nested
 // values, duplicates) under uniqueItems / enum / items / length keywords, through the schema
 // validator, the items-level validators and the exported helpers: no element is moved or replaced.
